@@ -1,15 +1,21 @@
 """C04 - no received frame can stop or derail the receive path.
 
-Decides: (a) no exception class can propagate from the wired receive callback closure (GN router ->
-verify service -> BTP router -> CAM/DENM/VAM reception -> LDM adaptation -> clustering) out of either
-receive loop, (b) no handler that catches such an exception leaves the loop and no handler inside the loops can
-raise by itself, (c) nothing escapes the thread function itself, (d) the raw link layer's address filter (own
-unicast, or broadcast not sent by us) as an implication between guard formulas, (e) in every GeoNetworking
-receive handler no content-dependent rejection (decode / range / division error not caught in the handler) can
-follow the first change of router or location-table state - a frame discarded for what it contains has not
-touched the state before.
-Does not decide: full state equivalence "as if the bad frame had never been received" beyond (e), termination
-of third-party parsers.
+Decides: (a) no exception class of the may-raise summary of the wired receive callback closure (GN router ->
+verify service -> BTP router -> CAM/DENM/VAM reception -> LDM adaptation -> clustering) can propagate out of either
+receive loop: each is caught inside the loop by a handler that does not leave it (escape); (b) every break / return
+inside a loop sits on a link-down exit - the OSError handler of the read call or the queue's stop sentinel - never
+under a condition on the frame (loop-exits), and no statement of a handler inside the loops can raise by itself
+(handler-total); (c) nothing escapes the thread function itself (thread-survives); (d) the raw link layer's address
+filter as an implication between guard formulas: every callback call is guarded by "own unicast, or broadcast not
+sent by us", both kinds stay acceptable, and the callback receives the frame without its 14-octet ethernet header
+(filter); (e) in every GeoNetworking receive handler no content-dependent rejection (decode / range / division error
+not caught in the handler) can follow the first change of router or location-table state - a frame discarded for
+what it contains has not touched the state before - and the dispatcher or a receive handler compares the Common
+Header's payload-length field with a len(...) of received octets, the only way to notice a payload that lost its tail
+(discard-before-state).
+Does not decide: full state equivalence "as if the bad frame had never been received" beyond (e) - in particular not
+that the payload-length comparison is the right one or rejects the frame -, exceptions outside the may-raise model
+(implicit AttributeError / TypeError), termination of third-party parsers.
 """
 from __future__ import annotations
 
